@@ -1,10 +1,11 @@
-"""tools/seed_prompt.py <property id> <worktree> <suffix> <prompt file> [<avoid text>]
+"""tools/seed_prompt.py <property id> <worktree> <suffix> <prompt file> [<avoid text>] [<file the change must be in>]
 Writes the prompt handed to an independent sub-agent that is asked for one seeded break: ONLY the property text and
 its scratch worktree, nothing from /verif."""
 import json
 import sys
 pid, wt, suffix, out = sys.argv[1:5]
 avoid = sys.argv[5] if len(sys.argv) > 5 else ''
+site = sys.argv[6] if len(sys.argv) > 6 else ''
 p = next(d for d in map(json.loads, open('/verif/properties.jsonl')) if d['id'] == pid)
 T = '''You are helping validate a verification harness by producing ONE realistic regression ("seeded break") in a Python library.
 
@@ -24,6 +25,7 @@ Task: make a SMALL, realistic source change to the library (the kind of thing a 
  2. the property above is BROKEN for some inputs, and
  3. the break needs something SPECIFIC to manifest (a particular operator type, option, shape, topology, value range, recipe combination or call history) -- it must NOT show on every model/recipe, and it must not be a crash on every call; silent wrong results are preferred over exceptions.
 {avoid}
+{site}
 Do not edit tests. Do not add environment-variable switches. Change library source files only (ideally one hunk, at most ~15 changed lines).
 
 Deliver in {wt}:
@@ -35,4 +37,5 @@ In your final message report: the file/function changed, what specific inputs ar
 open(out, 'w').write(T.format(
     wt=wt, pid=pid, low=(pid + suffix).lower(), title=p['title'], statement=p['statement'], quant=p['quantifier']['text'],
     files=', '.join(p['anchors']['files']),
+    site=('The change must be made in the file ' + site + ' (earlier studies of this library never touched it); pick whatever function in it serves best.') if site else '',
     avoid=('Do not repeat these already-studied ideas for this property: ' + avoid + '. Pick a different site/mechanism.') if avoid else ''))
